@@ -34,10 +34,14 @@ Definition rname := (N * N)%type.
    [e_dir]  is the directory of <path> reachable (false: renamed away, unmounted, replaced by a file:
             Stat(path) and OpenFile(path, O_CREATE) both fail);
    [e_fd]   what the open descriptor f.f refers to: the file that is at <path>, or a file that is not
-            there any more (somebody removed or renamed it while it was open);
-   [e_lost] ghost: bytes written through a descriptor of the second kind (they reach no log file) *)
-Inductive fdst := FdAtPath | FdDetached.
-Record env := mkEnv { e_dir : bool; e_fd : fdst; e_lost : bytes }.
+            there any more (somebody removed or renamed it while it was open), or it is closed
+            (rotate() closes it before the rename and returns early when the rename fails);
+   [e_lost] ghost: bytes written through a descriptor of the second kind (they reach no log file);
+   [e_namelen] length in bytes of the base name of <path>: a rotated name is that plus
+            ".YYYYMMDDhhmmss" plus, from the second rotation within a second on, ".<k>"; a name of more
+            than 255 bytes cannot be created (Lstat and Rename fail with ENAMETOOLONG) *)
+Inductive fdst := FdAtPath | FdDetached | FdClosed.
+Record env := mkEnv { e_dir : bool; e_fd : fdst; e_lost : bytes; e_namelen : Z }.
 
 Record rf := mkRF {
   rf_max : Z;
@@ -53,7 +57,12 @@ Record rf := mkRF {
 Definition rf_dir (st : rf) : bool := e_dir (rf_env st).
 Definition rf_fd (st : rf) : fdst := e_fd (rf_env st).
 Definition rf_lost (st : rf) : bytes := e_lost (rf_env st).
-Definition fd_at_path (st : rf) : env := mkEnv (rf_dir st) FdAtPath (rf_lost st).
+Definition rf_namelen (st : rf) : Z := e_namelen (rf_env st).
+Definition fd_at_path (st : rf) : env := mkEnv (rf_dir st) FdAtPath (rf_lost st) (rf_namelen st).
+Definition fd_open (st : rf) : bool := match rf_fd st with FdClosed => false | _ => true end.
+Definition close_fd (st : rf) : rf :=
+  mkRF (rf_max st) (rf_pos st) (rf_exists st) (rf_cur st) (rf_rot st) (rf_hist st) (rf_moved st) (rf_gone st)
+       (mkEnv (rf_dir st) FdClosed (rf_lost st) (rf_namelen st)).
 
 (* "name := path.ts; for i := 1; ; i++ { if Lstat(name) fails break; name = path.ts.i }":
    the first k = 0, 1, 2, ... whose name does not exist.  Evaluated by striking each name found
@@ -81,7 +90,22 @@ Fixpoint mex (fuel : nat) (k : N) (ks : list N) : N :=
 Definition free_k (s : N) (d : list (rname * bytes)) : N :=
   let ks := ks_of s d in mex (length ks) 0%N ks.
 
+(* can the name the search ends on be created?  base name + ".YYYYMMDDhhmmss" (15 bytes) + ".<k>"
+   for k > 0 must not exceed NAME_MAX = 255.  (The search stops at the first candidate that is free
+   or cannot be Lstat'ed; candidates only get longer, so it is enough to look at the free one.)
+   Decimal length of k is computed for k < 10^39. *)
+Fixpoint dlen (fuel : nat) (k : N) : Z :=
+  match fuel with
+  | O => 0
+  | S f => if (k <? 10)%N then 1 else 1 + dlen f (k / 10)%N
+  end.
+Definition klen (k : N) : Z := if (k =? 0)%N then 0 else 1 + dlen 39 k.
+Definition can_rotate (s : N) (st : rf) : bool :=
+  rf_namelen st + 15 + klen (free_k s (rf_rot st)) <=? 255.
+
 (* rotate(): Sync, Close, Rename to the first free name for now, reopen (O_CREATE, pos = 0).
+   When the rename fails (can_rotate = false) rotate() returns the error with the descriptor
+   closed and nothing else changed: see the callers.
    [skipped]/[k] only feed the ghost history. *)
 Definition rotate (s : N) (skipped : bytes) (kd : rkind) (st : rf) : rf :=
   let k := free_k s (rf_rot st) in
@@ -107,7 +131,8 @@ Definition put (st : rf) (b : bytes) : rf :=
   | FdDetached =>
       mkRF (rf_max st) (rf_pos st) (rf_exists st) (rf_cur st)
            (rf_rot st) (rf_hist st) (rf_moved st) (rf_gone st)
-           (mkEnv (rf_dir st) FdDetached (rf_lost st ++ b))
+           (mkEnv (rf_dir st) FdDetached (rf_lost st ++ b) (rf_namelen st))
+  | FdClosed => st                 (* Write on a closed file fails; callers test fd_open first *)
   end.
 
 Definition set_pos (st : rf) (z : Z) : rf :=
@@ -180,7 +205,8 @@ Definition window_scan (p : bytes) (j : Z) : scan_res :=
 (* the loop "for f.pos+len(p) > f.maxSize { ... }" and the final write.
    [clk i] = wall-clock second read by the i-th rotate() of this call. *)
 Fixpoint write_loop (fuel : nat) (clk : nat -> N) (i : nat) (st : rf) (p : bytes) (written : Z) : wres :=
-  let final := WOk (set_pos (put st p) (rf_pos st + zlen p)) (written + zlen p) in
+  let final := if fd_open st then WOk (set_pos (put st p) (rf_pos st + zlen p)) (written + zlen p)
+               else WErr st in                   (* Write on a closed file: error, pos += 0 *)
   if exceeds p (rf_max st - rf_pos st) then      (* f.pos + len(p) > f.maxSize *)
     match fuel with
     | O => WFuel
@@ -189,15 +215,23 @@ Fixpoint write_loop (fuel : nat) (clk : nat -> N) (i : nat) (st : rf) (p : bytes
         | SOutOfRange => WPanic
         | SFound a rest =>
             (* Write(p[:j]); rotate; skip the newline; p = p[j+1:] *)
-            write_loop fuel' clk (S i) (rotate (clk i) [NL] RSplit (put st a)) rest (written + zlen a + 1)
+            if negb (fd_open st) then WErr st
+            else if can_rotate (clk i) st then
+              write_loop fuel' clk (S i) (rotate (clk i) [NL] RSplit (put st a)) rest (written + zlen a + 1)
+            else WErr (close_fd (put st a))
         | SNone =>
             if 0 <? rf_pos st then
               (* continue in a fresh file, nothing is skipped *)
-              write_loop fuel' clk (S i) (rotate (clk i) [] RFresh st) p written
+              if can_rotate (clk i) st then
+                write_loop fuel' clk (S i) (rotate (clk i) [] RFresh st) p written
+              else WErr (close_fd st)
             else
               match split_first_nl p with
               | Some (a, b) =>
-                  write_loop fuel' clk (S i) (rotate (clk i) [NL] RLong (put st a)) b (written + zlen a + 1)
+                  if negb (fd_open st) then WErr st
+                  else if can_rotate (clk i) st then
+                    write_loop fuel' clk (S i) (rotate (clk i) [NL] RLong (put st a)) b (written + zlen a + 1)
+                  else WErr (close_fd (put st a))
               | None => final                     (* break: no newline at all *)
               end
         end
@@ -205,7 +239,9 @@ Fixpoint write_loop (fuel : nat) (clk : nat -> N) (i : nat) (st : rf) (p : bytes
   else final.
 
 (* Write(p): Stat(path) failed => reopen; then the loop.  With the directory unreachable both
-   fail: the error is returned, descriptor and position are kept *)
+   fail: the error is returned, descriptor and position are kept.
+   WErr also stands for the error returns inside the loop (a rename that fails, a write on the
+   descriptor such a rename left closed); what was written before the error stays written. *)
 Definition rf_write (clk : nat -> N) (st : rf) (p : bytes) : wres :=
   if rf_dir st then
     let st0 := if rf_exists st then st else reopen st in
@@ -217,10 +253,19 @@ Definition rf_write (clk : nat -> N) (st : rf) (p : bytes) : wres :=
 Definition rf_reopen (s : N) (st : rf) : rf :=
   let st1 := mkRF (rf_max st) (zlen (rf_cur st)) true (rf_cur st)
                   (rf_rot st) (rf_hist st) (rf_moved st) (rf_gone st) (fd_at_path st) in
-  if rf_pos st1 <? rf_max st1 then st1 else rotate s [] ROpen st1.
+  if rf_pos st1 <? rf_max st1 then st1
+  else if can_rotate s st1 then rotate s [] ROpen st1
+  else close_fd st1.                (* OpenRotateFile returns (rf, err) *)
 
-Definition rf_open (max : Z) (s : N) (init : bytes) : rf :=
-  rf_reopen s (mkRF max 0 true init [] [] [] [] (mkEnv true FdAtPath [])).
+(* did OpenRotateFile return an error (the file found is full and cannot be rotated away) *)
+Definition open_fails (namelen max : Z) (s : N) (init : bytes) : bool :=
+  negb (zlen init <? max) && negb (namelen + 15 <=? 255).
+
+Definition rf_open_env (namelen max : Z) (s : N) (init : bytes) : rf :=
+  rf_reopen s (mkRF max 0 true init [] [] [] [] (mkEnv true FdAtPath [] namelen)).
+
+(* the usual name: log *)
+Definition rf_open (max : Z) (s : N) (init : bytes) : rf := rf_open_env 3 max s init.
 
 (* ---- histories ---- *)
 Inductive op :=
@@ -239,19 +284,19 @@ Definition ext_remove (st : rf) : rf :=
   if rf_dir st && rf_exists st then
     mkRF (rf_max st) (rf_pos st) false [] (rf_rot st)
          (rf_hist st ++ [mkH 0 0 (rf_cur st) [] RGone]) (rf_moved st) (rf_gone st ++ [rf_cur st])
-         (mkEnv (rf_dir st) FdDetached (rf_lost st))
+         (mkEnv (rf_dir st) FdDetached (rf_lost st) (rf_namelen st))
   else st.
 
 Definition ext_move (st : rf) : rf :=
   if rf_dir st && rf_exists st then
     mkRF (rf_max st) (rf_pos st) false [] (rf_rot st)
          (rf_hist st ++ [mkH 0 0 (rf_cur st) [] RMoved]) (rf_moved st ++ [rf_cur st]) (rf_gone st)
-         (mkEnv (rf_dir st) FdDetached (rf_lost st))
+         (mkEnv (rf_dir st) FdDetached (rf_lost st) (rf_namelen st))
   else st.
 
 Definition ext_dir (b : bool) (st : rf) : rf :=
   mkRF (rf_max st) (rf_pos st) (rf_exists st) (rf_cur st) (rf_rot st) (rf_hist st) (rf_moved st) (rf_gone st)
-       (mkEnv b (rf_fd st) (rf_lost st)).
+       (mkEnv b (rf_fd st) (rf_lost st) (rf_namelen st)).
 
 (* a restart while the directory is unreachable: OpenRotateFile fails, there is no writer; the
    histories considered restart only while it is reachable (nothing happens otherwise) *)
@@ -339,8 +384,8 @@ Definition apply_fault (f : fault) (st : rf) : rf :=
   | FDirBack => ext_dir true st
   end.
 
-(* what the writer goroutine sees.  [clk g] = the wall-clock second read by the g-th rotation
-   since the channel's directory was empty (used only if this event makes the loop flush) *)
+(* what the writer goroutine sees.  [clk g] = the wall-clock second read by the rotation that
+   creates the g-th rotated file of the directory (used only if this event makes the loop flush) *)
 Inductive wev :=
 | ESend (clk : nat -> N) (line : bytes)   (* a request arrives (already encoded: line ++ "\n") *)
 | EBad                                    (* a request arrives that json.Encoder rejects (NaN, chan, func ...) *)
@@ -358,7 +403,7 @@ Record wl := mkWL { wl_rf : rf; wl_buf : list bytes; wl_len : Z }.
 Definition wl_flush (clk : nat -> N) (w : wl) : option wl :=
   match wl_buf w with
   | [] => Some w                       (* io.Copy of an empty buffer performs no Write *)
-  | _ => match rf_write (fun i => clk (length (rf_hist (wl_rf w)) + i)%nat) (wl_rf w) (concat (wl_buf w)) with
+  | _ => match rf_write (fun i => clk (length (rf_rot (wl_rf w)) + i)%nat) (wl_rf w) (concat (wl_buf w)) with
          | WOk st _ => Some (mkWL st [] 0)
          | WErr st => Some (mkWL st [] 0)
          | _ => None
@@ -401,7 +446,10 @@ Fixpoint wl_accepted (d : bool) (es : list wev) : bytes :=
 
 (* New(): MaxSize >= 1024 required; the destination is opened here; None = New returned an
    error and no channel (nothing to Send on) *)
-Definition wl_new (max : Z) (openable : bool) (s : N) (init : bytes) : option wl :=
+Definition wl_new_env (namelen max : Z) (openable : bool) (s : N) (init : bytes) : option wl :=
   if max <? 1024 then None
-  else if openable then Some (mkWL (rf_open max s init) [] 0)
+  else if openable && negb (open_fails namelen max s init) then Some (mkWL (rf_open_env namelen max s init) [] 0)
   else None.
+
+Definition wl_new (max : Z) (openable : bool) (s : N) (init : bytes) : option wl :=
+  wl_new_env 3 max openable s init.
